@@ -2,6 +2,11 @@
 
 package controller
 
+import (
+	v1 "k8s.io/api/core/v1"
+	"k8s.io/apimachinery/pkg/api/resource"
+)
+
 func init() {
 	verifHarnesses["VerifHarness_C05_scan"] = VerifHarness_C05_scan
 }
@@ -9,9 +14,10 @@ func init() {
 // VerifHarness_C05_scan: the number of nodes a scale-up scan brings into
 // service (untainted + newly requested) is sufficient and at most one above
 // the minimum, including the scale-from-zero cases.
-// shape: [mode (0 utilisation, 1 from zero with cached node size, 2 from zero, nothing cached), nodes, tainted nodes]
+// shape: [mode (0 utilisation, 1 from zero with cached node size, 2 from zero, nothing cached,
+//         3 from zero after the node size changed between two earlier scans), nodes, tainted nodes, failure budget]
 func VerifHarness_C05_scan() {
-	mode, N, TN := verifShape(0), verifShape(1), verifShape(2)
+	mode, N, TN, F := verifShape(0), verifShape(1), verifShape(2), verifShape(3)
 	w := newWorld(0)
 	o := groupOpts(0)
 	th := thresholdMenu[verifChoice("thresholds", len(thresholdMenu))]
@@ -29,8 +35,24 @@ func VerifHarness_C05_scan() {
 		w.addNode(g, tcEsc, false, 0, 10, int64(4000+i), true)
 	}
 	w.build()
-	if mode == 1 {
-		// a first scan observes the node size; then every node goes away
+	if mode == 3 {
+		// the group is first observed with small nodes, then re-provisioned with the current size
+		for _, n := range w.nodes {
+			n.obj.Status.Allocatable = v1.ResourceList{
+				v1.ResourceCPU:    *resource.NewMilliQuantity(w.cpuPerNode/4, resource.DecimalSI),
+				v1.ResourceMemory: *resource.NewQuantity(w.memPerNode/4, resource.BinarySI),
+			}
+		}
+		_ = w.ctrl.RunOnce()
+		for _, n := range w.nodes {
+			n.obj.Status.Allocatable = v1.ResourceList{
+				v1.ResourceCPU:    *resource.NewMilliQuantity(w.cpuPerNode, resource.DecimalSI),
+				v1.ResourceMemory: *resource.NewQuantity(w.memPerNode, resource.BinarySI),
+			}
+		}
+	}
+	if mode == 1 || mode == 3 {
+		// a scan observes the (last) node size; then every node goes away
 		_ = w.ctrl.RunOnce()
 		for _, n := range w.nodes {
 			n.deleted = true
@@ -41,6 +63,7 @@ func VerifHarness_C05_scan() {
 	}
 	p := w.addPod(g, -1, false, cpuReq, memReq, true)
 	_ = p
+	w.J.FailBudget = F // rejected untaint writes must not be counted as capacity
 	mark := len(w.J.Calls)
 	_ = w.ctrl.RunOnce()
 	j := w.summarize(g, mark)
@@ -55,14 +78,16 @@ func VerifHarness_C05_scan() {
 		nearCPU := 100*cpuReq-T*w.cpuPerNode*(n+brought) <= (T*w.cpuPerNode*(n+brought))>>30
 		suffMem := 100*memReq <= T*w.memPerNode*(n+brought)
 		nearMem := 100*memReq-T*w.memPerNode*(n+brought) <= (T*w.memPerNode*(n+brought))>>30
-		verifAssert("C05.scan-sufficient-cpu", verifImplies(above, verifOr(suffCPU, verifKnown("K-C05", nearCPU))))
-		verifAssert("C05.scan-sufficient-mem", verifImplies(above, verifOr(suffMem, verifKnown("K-C05", nearMem))))
+		// an injected failure of the cloud request itself (or of the refresh) excuses the scan
+		cloudOK := j.increaseAttempts == j.increases && w.builder.Builds == 0
+		verifAssert("C05.scan-sufficient-cpu", verifImplies(verifAnd(above, cloudOK), verifOr(suffCPU, verifKnown("K-C05", nearCPU))))
+		verifAssert("C05.scan-sufficient-mem", verifImplies(verifAnd(above, cloudOK), verifOr(suffMem, verifKnown("K-C05", nearMem))))
 		tight := verifOr(100*cpuReq > T*w.cpuPerNode*(n+brought-2), 100*memReq > T*w.memPerNode*(n+brought-2))
 		verifAssert("C05.scan-at-most-one-extra", verifImplies(above, verifOr(brought < 2, tight)))
 		if TN > 0 {
 			verifReachIf("C05.scan-untainted-and-bought", verifAnd(j.untaints > 0, j.added > 0))
 		}
-	case 1:
+	case 1, 3:
 		// from zero: the last observed node size stands in for capacity
 		need := verifOr(cpuReq > 0, memReq > 0)
 		suffCPU := 100*cpuReq <= T*w.cpuPerNode*brought
@@ -74,6 +99,9 @@ func VerifHarness_C05_scan() {
 		tight := verifOr(100*cpuReq > T*w.cpuPerNode*(brought-2), 100*memReq > T*w.memPerNode*(brought-2))
 		verifAssert("C05.zero-cached-at-most-one-extra", verifImplies(need, verifOr(brought < 2, tight)))
 		verifReachIf("C05.zero-cached", brought > 1)
+		if mode == 3 {
+			verifReach("C05.zero-after-size-change")
+		}
 	case 2:
 		need := verifOr(cpuReq > 0, memReq > 0)
 		verifAssert("C05.zero-uncached-exactly-one", verifImplies(need, brought == 1))
